@@ -301,8 +301,55 @@ def choose_scalar(k, op, cur, pos, rng):
     return small_value(k, rng, nonzero=(op == "div"))
 
 
+# ---- forms that mech implements (used by the "clean" stream: whole sessions expected to bind) -----------
+def comp_class(ix, n):
+    t = ix[0]
+    if t == "s":
+        return "s"
+    if t == "all":
+        return "a"
+    if t == "v":
+        return "u" if len(ix) - 1 >= 2 else "bad"
+    if t == "r":
+        return "u" if ix[2] - ix[1] >= 2 else "bad"
+    return "b" if len(ix) - 1 >= 2 else "bad"
+
+
+def clean_stmt(k, r, c, op, t, vec, pos):
+    """True when the statement is of a form mech handles as the property demands (in range), or fails at once"""
+    numeric_op = k in ms.NUM_KINDS and k != "i128"
+    if t[0] == "w":
+        return op != "set" and numeric_op and not vec
+    comps = [comp_class(t[1], r * c)] if t[0] == "i1" else [comp_class(t[1], r), comp_class(t[2], c)]
+    if "bad" in comps:
+        return False
+    if pos is None:
+        # only failures that happen before any element is written
+        return (not vec) and op == "set" and all(x == "s" for x in comps)
+    if len(set(pos)) != len(pos) and (vec or op != "set"):
+        return False
+    if vec:
+        return t[0] == "i1" and comps[0] == "u" and (op == "set" or numeric_op)
+    if op == "set":
+        if t[0] == "i1":
+            return True
+        ci, cj = comps
+        if (ci, cj) in (("a", "a"), ("b", "a"), ("u", "b")):
+            return False
+        if (ci, cj) == ("b", "u"):
+            return k == "f64"
+        if (ci, cj) == ("u", "a"):
+            return k != "i128"
+        return True
+    if not numeric_op:
+        return False
+    if t[0] == "i1":
+        return comps[0] == "u"
+    return comps == ["u", "a"] and op != "div"
+
+
 # ---- sessions ---------------------------------------------------------------
-def make_session(k, r, c, rng, nst, tags):
+def make_session(k, r, c, rng, nst, tags, clean=False):
     n = r * c
     data = [small_value(k, rng) if k in ms.NUM_KINDS and rng.random() < 0.8 else any_value(k, rng) for _ in range(n)]
     cur = list(data)
@@ -327,15 +374,21 @@ def make_session(k, r, c, rng, nst, tags):
             if op == "set":
                 t = ("i1", ("all",))
         pos = target_positions(t, r, c)
+        if clean:
+            if not clean_stmt(k, r, c, op, t, vec_src, pos):
+                tries = tags.setdefault("_tries", 0) + 1
+                tags["_tries"] = tries
+                if tries < 400:
+                    continue
         sk = other_kind(k, rng) if wrong_kind else k
         if vec_src:
             m = len(pos) if pos is not None else rng.randint(2, 4)
-            v = rng.random()
+            v = rng.random() if not clean else 1.0
             if v < 0.15:
                 m = max(0, m - rng.randint(1, 2))
             elif v < 0.3:
                 m = m + rng.randint(1, 2)
-            if t[0] == "i1" and t[1][0] == "m" and rng.random() < 0.4:
+            if t[0] == "i1" and t[1][0] == "m" and rng.random() < 0.4 and not clean:
                 m = len(t[1]) - 1                                    # source as long as the mask
             m = max(m, 2)
             col = (c == 1 and r > 1) if rng.random() < 0.7 else rng.random() < 0.5
@@ -374,6 +427,7 @@ def make_session(k, r, c, rng, nst, tags):
                     if t[0] != "w" and (t[0] == "i2" and t[1][0] == "s" and t[2][0] == "s" or
                                         t[0] == "i1" and t[1][0] in ("s", "v", "m")) and pos and not (t[1][0] in ("v", "m") and len(t[1]) < 3):
                         last_target = t
+    tags.pop("_tries", None)
     case = ["c04", k, r, c, [ms.payload(k, v) for v in data], stmts]
     return dict(sx=sx(case), impl=dict(stmts=srcs), tags=tags)
 
@@ -405,6 +459,8 @@ def fixed_cases():
     add("f64", 2, 3, [1.0, 4.0, 2.0, 5.0, 3.0, 6.0], [("set", ("i2", ("m", False, True), ("all",)), ("sc", "f64", 18.0))], "mask-all")
     add("f64", 3, 4, [float(i) for i in range(12)], [("set", ("i2", ("v", 3, 1), ("m", False, True, False, True)), ("sc", "f64", 100.0))], "vec-mask")
     add("f64", 1, 4, [1.0, 2.0, 3.0, 4.0], [("set", ("i1", ("m", True, False, False, True)), ("vec", "f64", False, [50.0, 60.0]))], "mask-vec")
+    add("i64", 3, 1, [8, 6, 4], [("div", ("i2", ("v", 1, 2), ("all",)), ("sc", "i64", 2))], "div-rows-all")
+    add("i64", 2, 2, [1, 2, 3, 4], [("add", ("i2", ("s", 1), ("s", 2)), ("sc", "i64", 5))], "not-implemented")
     add("f64", 2, 3, [1.0, 4.0, 2.0, 5.0, 3.0, 6.0],
         [("set", ("i2", ("s", 2), ("s", 1)), ("sc", "f64", 10.0)), ("read", ("i2", ("s", 2), ("s", 1)), None),
          ("add", ("i1", ("v", 1, 3)), ("sc", "f64", 10.0)), ("read", ("i1", ("v", 1, 3)), None),
@@ -416,15 +472,17 @@ def generate(tier, rng):
     for c in fixed_cases():
         yield c
     shapes = list(SHAPES) + (SHAPES_MORE if tier != "quick" else [])
-    per = 5 if tier == "quick" else 40
+    per = 7 if tier == "quick" else 12
     ki = 0
     for (r, c) in shapes:
         for rep in range(per):
             kinds = [KINDS[(ki + j) % len(KINDS)] for j in range(16 if tier != "quick" else 4)]
             ki += len(kinds) + 1 if tier == "quick" else 1
-            for k in kinds:
+            for j, k in enumerate(kinds):
                 nst = rng.randint(1, 6)
-                yield make_session(k, r, c, rng, nst, dict(stream="random", kind=k, shape="%dx%d" % (r, c)))
+                clean = (j + rep) % 2 == 0
+                yield make_session(k, r, c, rng, nst, dict(stream="clean" if clean else "any", kind=k, shape="%dx%d" % (r, c)),
+                                   clean=clean)
 
 
 def shrink(case):
